@@ -19,6 +19,7 @@ def main() -> int:
     ap.add_argument("--tier", default=os.environ.get("VERIF_TIER") or "quick", choices=["quick", "thorough"])
     ap.add_argument("--replay")
     ap.add_argument("--setup", action="store_true")
+    ap.add_argument("--extract", action="store_true", help="only regenerate lean/EphVerif/Generated/<prop>.lean from the working tree")
     a = ap.parse_args()
     if a.setup:
         import setup_all
@@ -26,6 +27,12 @@ def main() -> int:
     if not a.prop:
         ap.error("property id required")
     mod = importlib.import_module(f"props.{a.prop}")
+    if a.extract:
+        if hasattr(mod, "spec") and mod.spec().extract:
+            print(mod.spec().extract())
+        elif hasattr(mod, "extract"):
+            print(mod.extract())
+        return 0
     seed = int(os.environ.get("VERIF_SEED") or "1")
     return mod.run(a.tier, seed, a.replay)
 
